@@ -7,6 +7,7 @@ import (
 	"crypto/x509"
 	"encoding/pem"
 	"errors"
+	"fmt"
 	"github.com/rs/zerolog/log"
 	"github.com/theparanoids/ysshra/agent/utils"
 	"io"
@@ -220,7 +221,7 @@ func ServeAgent(agent YubiAgent, c io.ReadWriter) error {
 			AgentMessageRequestV1Identities, AgentMessageRequestIdentities:
 
 			forwarder := newForwarder(req, c)
-			err = sshagent.ServeAgent(agent, forwarder)
+			err = serveForwarded(agent, forwarder)
 			if err != nil && err != io.EOF {
 				return err
 			}
@@ -237,4 +238,16 @@ func ServeAgent(agent YubiAgent, c io.ReadWriter) error {
 			}
 		}
 	}
+}
+
+// serveForwarded replays one request into the standard agent protocol server.
+// That server may panic on a malformed request (e.g. a truncated key constraint);
+// such a request must end the connection with an error, not crash the process.
+func serveForwarded(agent sshagent.Agent, f forwarder) (err error) {
+	defer func() {
+		if r := recover(); r != nil {
+			err = fmt.Errorf("yubiagent: malformed request: %v", r)
+		}
+	}()
+	return sshagent.ServeAgent(agent, f)
 }
